@@ -777,6 +777,7 @@ func runProperty(prop, tier string) int {
 			}
 		}
 	}
+	eng.crossWG.Wait()
 	if rs.unknown {
 		for k, n := range eng.unknowns {
 			inconclusive = append(inconclusive, fmt.Sprintf("solver answered unknown %d times for: %s", n, k))
